@@ -80,8 +80,12 @@ def run(ctx):
             if any(o.kind == 'call' and o.key == 'reconcile::reconcile' for o in io):
                 uses += 1
         ok = uses >= 2
-    ctx.check(ok, 'C15.R5', 'run_bisync:printed-plan-is-executed-plan', 'dry-run listing and apply loop iterate the one reconcile() result',
-              'run_bisync lists a different plan under --dry-run than it applies', loc(b, b.lo))
+        if not ok and uses == 1 and any((callee(t_) or '').endswith('::partition') for _, t_ in fl.calls(lambda c: True)):
+            ctx.undecided('C15.R5', 'run_bisync lists the plan and applies a partition of it: that both halves are handled is not decided')
+            ok = None
+    if ok is not None:
+        ctx.check(ok, 'C15.R5', 'run_bisync:printed-plan-is-executed-plan', 'dry-run listing and apply loop iterate the one reconcile() result',
+                  'run_bisync lists a different plan under --dry-run than it applies', loc(b, b.lo))
 
 
 def delete_sources(ctx, F, rid):
